@@ -92,6 +92,8 @@ func class(mode string) int {
 	switch mode {
 	case simprom.ModeOK:
 		return clsSuccess
+	case "timeout_midbody":
+		return clsMustFailover
 	case simprom.ModeRefused, simprom.ModeDialBlackHole, simprom.ModeStall, simprom.ModeReset,
 		simprom.ModeHTTP500, simprom.ModeHTTP502, simprom.ModeHTTP503, simprom.ModeJSONServerErr:
 		return clsMustFailover
@@ -114,7 +116,7 @@ func drawMode(rt *rapid.T, label string) string {
 
 func draw(rt *rapid.T) Scenario {
 	var sc Scenario
-	sc.Sched = detsim.DrawSched(rt, 300)
+	sc.Sched = detsim.DrawSchedPauses(rt, 300)
 	sc.Upstreams = rapid.IntRange(1, 3).Draw(rt, "upstreams")
 	sc.Required = rapid.Bool().Draw(rt, "required")
 	sc.TimeoutS = []int{1, 5, 30}[rapid.IntRange(0, 2).Draw(rt, "timeout")]
@@ -391,6 +393,9 @@ func run(t *testing.T, sc Scenario, record bool) *detsim.Outcome {
 		nw.Close()
 	})
 	out.Sched = stats
+	if stats.Pauses > 0 {
+		out.Probes["scheduler_pauses"] += stats.Pauses
+	}
 	if !live {
 		setViol("liveness", fmt.Sprintf("callers did not finish within the simulated budget (leak: %s)", leak))
 	} else if leak != "" {
@@ -449,6 +454,10 @@ func errMatchesMode(err error, mode string) bool {
 		return !isAPI
 	case simprom.ModeOK:
 		return false
+	case "client_timeout":
+		return isTimeout(err) || errors.Is(err, context.Canceled)
+	case "timeout_midbody":
+		return isTimeout(err)
 	}
 	return true // unspecified behaviours: any error
 }
@@ -522,6 +531,8 @@ func judge(sc Scenario, attempts []attempt, results []result, logs [][]simprom.R
 		at := byOp[r.ID]
 		// failures per upstream that were really applied to this operation
 		failed := map[int][]string{}
+		abortedOn := map[int]int{}
+		midbody := map[int]int{}
 		okOn := map[int]int{}
 		visited := []int{}
 		seen := map[int]bool{}
@@ -545,11 +556,39 @@ func judge(sc Scenario, attempts []attempt, results []result, logs [][]simprom.R
 				}
 			}
 			switch outcome {
+			case "aborted_midbody":
+				// the client went away while the answer was still arriving: either a failed sibling
+				// slice cancelled it, or its own deadline fired - a timeout of this upstream
+				abortedOn[a.Up]++
+				midbody[a.Up]++
 			case "aborted":
+				abortedOn[a.Up]++
+				if len(sc.Sched.Pauses) > 0 && r.Op.Kind != kRange {
+					// the scheduler held this answer back until the client's own deadline fired:
+					// for pint that is a timeout of a slow upstream (whether the pause was long
+					// enough is a matter of nanoseconds, so failing over is allowed, not demanded)
+					failed[a.Up] = append(failed[a.Up], "client_timeout")
+				}
 			case simprom.ModeOK:
 				okOn[a.Up]++
 			default:
 				failed[a.Up] = append(failed[a.Up], outcome)
+			}
+		}
+		for u, n := range midbody {
+			if n > 0 && len(failed[u]) == 0 {
+				// nothing else failed there, so it was the deadline: a timeout, after which the next upstream must be tried
+				failed[u] = append(failed[u], "timeout_midbody")
+				out.Probes["timeout_while_reading_body"]++
+			}
+		}
+		if r.Op.Kind == kRange && len(sc.Sched.Pauses) > 0 {
+			// slices abandoned by the client: a held-back answer may have run into the deadline (or a
+			// failed sibling cancelled it - cannot be told apart here, so this only widens what is accepted)
+			for u, n := range abortedOn {
+				if n > 0 {
+					failed[u] = append(failed[u], "client_timeout")
+				}
 			}
 		}
 		if r.Op.Kind != kRange {
